@@ -65,6 +65,11 @@ chk("C11","encx","exploration",
     "trusted: AES-GCM; a leak in a re-encoded form would not be seen; the key exchange is replaced by the harness answering encryption.RequestKeys events with the sender's /db/enc blocks or with nothing; writes go through the collection API (GraphQL Int literals are 32-bit).",
     "bounded-exhaustive enumeration of configurations and update histories on the implementation with a byte-pattern search over every stored and published block", "§4 C11")
 
+chk("C12","sigx","exploration",
+    "2 key types (secp256k1, ed25519) x 4 histories (create; update incl. a counter; delete; null) with signing on: every signed block verifies with the author's key through DB.VerifySignature and fails under every other key; every single-field tampering of every signed block (each byte of delta data and docID flipped, data truncated, field name, priority +-1, schema version id, delete status, counter nonce, every head/link removed / duplicated / replaced by every other block of the store / renamed / added, encryption link added) and of its signature block (each byte of the value flipped, truncated, empty, header type swapped / unknown, identity replaced by every other valid key or a byte flipped) is re-filed under its new cid with the signature link kept: verification must fail under every key (DB.VerifySignature and the receive-side VerifyBlockSignature), and every tampered composite pushed through the receive path (real syncDAG over a block service serving the sender's store, then the real merge) to a receiver holding the honest ancestors must return an error and leave documents, commit history, heads and data keys unchanged; the untampered commit is delivered as a control and must be accepted.",
+    "trusted: ECDSA/EdDSA; single-field tampering only; a block whose signature link is removed is unsigned rather than forged and outside the statement (counted); a signature-block change that only relabels the header type leaves content, author key and signature value intact, so verification with the author's key is not required to fail for it.",
+    "bounded-exhaustive enumeration of single-field tamperings on the real blocks, checked on the real verification and receive path", "§4 C12")
+
 ALL = [f"C{i:02d}" for i in range(1, 21)]
 NA_REASON = "check not built yet in this round (work in progress; see DESIGN.md §4 for the planned exhaustive check)"
 
@@ -82,6 +87,7 @@ def main():
        {"name":"relx","path":"harness/checks/c09.go","serves_properties":["C09"],"kind_free_text":"relational data set/history/request enumerator with a foreign-key reference model, run on every index configuration"},
        {"name":"acpx","path":"harness/checks/c10.go","serves_properties":["C10"],"kind_free_text":"permission layout/history enumerator with a twin database that never held the unreadable documents"},
        {"name":"encx","path":"harness/checks/c11.go","serves_properties":["C11"],"kind_free_text":"encryption configuration/history enumerator with a secret-pattern scanner over stores and update events, keyless and keyed receivers"},
+       {"name":"sigx","path":"harness/checks/c12.go","serves_properties":["C12"],"kind_free_text":"single-field tamper enumerator over signed blocks and signature blocks, verification + receive-path oracle"},
        {"name":"txnx","path":"harness/checks/c06.go","serves_properties":["C06"],"kind_free_text":"interleaving enumerator for explicit transactions with a snapshot-isolation model"},
        {"name":"faultx","path":"harness/faultx","serves_properties":["C05"],"kind_free_text":"single-fault enumeration of every storage call of every operation"},
        {"name":"vkv","path":"harness/vkv","serves_properties":[],"kind_free_text":"snapshotable transactional store device; bound to badger by `vcheck CONFORM` (exhaustive differential run) in setup"},
